@@ -339,6 +339,30 @@ class TSym(TBase):
     def implies(self, a, b):
         return sym.mk_bool(sym.b_or(sym.b_not(sym._zb(a)), sym._zb(b)))
 
+    def count(self, items):
+        """Number of true conditions (symbolic integer)."""
+        acc = rnp.int64(0)
+        for it in items:
+            z = sym._zb(it)
+            if z is True:
+                acc = acc + 1
+            elif z is not False:
+                acc = acc + SInt(z3.If(z, 1, 0))
+        return acc
+
+    def ite(self, c, a, b):
+        return sym.s_where(c, a, b)
+
+    def floor_mul(self, x, m):
+        """floor(x*m) for x >= 0 and a concrete non-negative integer m (mathematical product)."""
+        return sym.s_int_trunc(sym.as_xr(x) * sym.as_xr(float(m)))
+
+    def total(self, items):
+        acc = None
+        for it in items:
+            acc = it if acc is None else acc + it
+        return 0.0 if acc is None else acc
+
     def same(self, a, b):
         """Elementwise identity as extended reals (NaN is NaN): scalar SBool."""
         A, B = snp._obj(a), snp._obj(b)
@@ -346,7 +370,18 @@ class TSym(TBase):
             return rnp.bool_(False)
         return sym.conj([sym.mk_bool(sym.x_same(sym.as_xr(x), sym.as_xr(y))) if not (isinstance(x, (SBool, bool, rnp.bool_)) and isinstance(y, (SBool, bool, rnp.bool_))) else sym.mk_bool(sym._z3b(sym._zb(x)) == sym._z3b(sym._zb(y))) for x, y in zip(A.flat, B.flat)])
 
-    close = same
+    def close(self, a, b, tol=1e-9):
+        """Equality up to an absolute tolerance (for clauses that involve natively rounded float constants)."""
+        A, B = snp._obj(a), snp._obj(b)
+        if A.shape != B.shape:
+            return rnp.bool_(False)
+        out = []
+        for x, y in zip(A.flat, B.flat):
+            x, y = sym.as_xr(x), sym.as_xr(y)
+            d = x - y
+            fin = sym.b_and(x.fin(), y.fin())
+            out.append(sym.mk_bool(sym.b_or(sym.b_and(fin, d.v <= sym._rv(tol), d.v >= sym._rv(-tol)), sym.b_and(sym.b_not(fin), sym.x_same(x, y)))))
+        return sym.conj(out)
 
     def eq(self, a, b):
         return self.same(a, b)
@@ -492,6 +527,21 @@ class TConc(TBase):
     def implies(self, a, b):
         return (not bool(a)) or bool(b)
 
+    def count(self, items):
+        return sum(1 for it in items if bool(it))
+
+    def ite(self, c, a, b):
+        return a if bool(c) else b
+
+    def floor_mul(self, x, m):
+        return int(math.floor(Fraction(float(x)) * int(m)))
+
+    def total(self, items):
+        acc = 0.0
+        for it in items:
+            acc = acc + it
+        return acc
+
     def same(self, a, b, rtol=1e-9, atol=1e-12):
         a, b = rnp.asarray(a), rnp.asarray(b)
         if a.shape != b.shape:
@@ -501,7 +551,8 @@ class TConc(TBase):
         with rnp.errstate(all="ignore"):
             return bool(rnp.allclose(a.astype(float), b.astype(float), rtol=rtol, atol=atol, equal_nan=True))
 
-    close = same
+    def close(self, a, b, tol=1e-9):
+        return self.same(a, b, rtol=0.0, atol=tol)
 
     def eq(self, a, b):
         return self.same(a, b)
